@@ -120,7 +120,7 @@ func New(
 		go s.Logf(ColorGreen, false, "Unmuting")
 	})
 	/* Handle control characters. */
-	s.t.ControlCharacterCallback = func(key rune) {
+	handleControlCharacter := func(key rune) {
 		switch key {
 		case 0x0F: /* ^O, silence output for a bit. */
 			s.wL.Lock()
@@ -153,6 +153,13 @@ func New(
 			//		key+'@', key, key,
 			//	)
 		}
+	}
+	/* The terminal calls us back with its own lock held, which whoever is
+	writing to the terminal (and so holds wL) is waiting for.  Handle the
+	key in another goroutine to not deadlock during, e.g. a flood of
+	output, which is exactly when someone will hit Ctrl+O. */
+	s.t.ControlCharacterCallback = func(key rune) {
+		go handleControlCharacter(key)
 	}
 	/* Open the controlling TTY, for raw mode and output. */
 	var err error
